@@ -3,6 +3,7 @@ from __future__ import annotations
 
 import json
 import random
+import zlib
 from io import StringIO
 from pathlib import Path
 
@@ -20,7 +21,10 @@ RULE = (
     "that match no register are exactly the non-matching lines of y, in order) and compared with the model. The "
     "precondition 'parsed values are representable' is evaluated per case by Spec.C06.representable on the model's "
     "parse of x (discards counted). non-trivial = x contains a typed line that is not already canonical or a "
-    "default line; distinct by full case."
+    "default line; distinct by full case. In about a third of the cases (a separate random stream derived from the "
+    "case) some registers list the fields of their LINE in another order than their columns (every field carries "
+    "its own starting position, so the declaration order is free as long as the columns do not overlap); contents "
+    "and expectations are unchanged by that, the model is given the same declaration order."
 )
 ASSUMPTIONS = c05.ASSUMPTIONS
 TRUSTED = []
@@ -180,7 +184,44 @@ def typed_line(rng, r, perts):
     return s + "\n"
 
 
+def declaration_order(case, p=0.35):
+    """the order in which a LINE lists its fields is free (each field carries its own columns): for a share `p`
+    of the cases some registers with two or more fields get their field list permuted, the per-field values of
+    their elements (written cases) along with it. Drawn from a random stream of its own, derived from the case,
+    so that the streams of the other dimensions stay as they are. The columns, hence the texts, do not change."""
+    xr = random.Random(zlib.crc32(json.dumps(case, sort_keys=True).encode()) ^ 0xC06)
+    if xr.random() >= p:
+        return case
+    done = False
+    for i, r in enumerate(case["regs"]):
+        n = len(r["fields"])
+        if n < 2 or xr.random() < 0.3:
+            continue
+        perm = list(range(n))
+        while perm == list(range(n)):
+            how = xr.randrange(3)
+            if how == 0:
+                perm = perm[::-1]
+            elif how == 1:
+                k = xr.randrange(1, n)
+                perm = perm[k:] + perm[:k]
+            else:
+                xr.shuffle(perm)
+        r["fields"] = [r["fields"][j] for j in perm]
+        for e in case.get("elems", []):
+            if e.get("cls") == i and len(e["data"]) == n:
+                e["data"] = [e["data"][j] for j in perm]
+        done = True
+    if done and "perts" in case:
+        case["perts"] = sorted(set(case["perts"]) | {"fields_declared_out_of_column_order"})
+    return case
+
+
 def random_case(rng):
+    return declaration_order(random_case0(rng))
+
+
+def random_case0(rng):
     regs = c05.make_regs(rng)
     perts = set()
     lines = []
@@ -245,6 +286,9 @@ def written_case(rng):
                         continue
                     x = 10.0 ** rng.randrange(1, kmax + 1) - rng.choice([0.5, 0.05, 0.04, 0.004, 0.0004, 0.00004])
                     e["data"][i] = codec.enc_val(-x if neg else x)
+    case = declaration_order(case)
+    reordered = ["fields_declared_out_of_column_order"] if any(
+        [f["start"] for f in r["fields"]] != sorted(f["start"] for f in r["fields"]) for r in case["regs"]) else []
     try:
         RF, classes, f = c05.build_file(case)
         buf = StringIO()
@@ -253,8 +297,8 @@ def written_case(rng):
         # such files): the exact-reproduction clause is then not demanded, only the fixed point
         looks_typed = any(isinstance(e, DefaultRegister) and isinstance(e.data, str) and any(c.matches(e.data) for c in classes) for e in f.data)
         if looks_typed:
-            return {"regs": case["regs"], "x": codec.enc_str(buf.getvalue()), "perts": ["produced_by_write", "free_text_a_declared_type_claims"]}
-        return {"regs": case["regs"], "x": codec.enc_str(buf.getvalue()), "perts": ["produced_by_write"], "perturbed": False}
+            return {"regs": case["regs"], "x": codec.enc_str(buf.getvalue()), "perts": ["produced_by_write", "free_text_a_declared_type_claims"] + reordered}
+        return {"regs": case["regs"], "x": codec.enc_str(buf.getvalue()), "perts": ["produced_by_write"] + reordered, "perturbed": False}
     except Exception:
         return {"regs": case["regs"], "x": [], "perts": ["produced_by_write"], "perturbed": False}
 
